@@ -123,7 +123,6 @@ class Telescope(Instrument):
         """
         while self.has_observations_to_process():
             # Check if scheduler is delayed
-            self.events = []
             if (
                     self.scheduler.schedule_status is ScheduleStatus.DELAYED
                     and not self.delayed):
@@ -162,8 +161,6 @@ class Telescope(Instrument):
                     continue
 
             yield self.env.timeout(1)
-
-        self.events = []
 
     def begin_observation(self, observation):
         """
